@@ -73,8 +73,10 @@ def main():
         if a.store and confirmed:
             dst = os.path.join(VERIF, "seeded", a.store)
             os.makedirs(dst, exist_ok=True)
-            shutil.copy(patch, os.path.join(dst, "patch.diff"))
-            shutil.copy(demo, os.path.join(dst, "demo.py"))
+            if os.path.abspath(patch) != os.path.abspath(os.path.join(dst, "patch.diff")):
+                shutil.copy(patch, os.path.join(dst, "patch.diff"))
+            if os.path.abspath(demo) != os.path.abspath(os.path.join(dst, "demo.py")):
+                shutil.copy(demo, os.path.join(dst, "demo.py"))
             meta = json.load(open(os.path.join(d, a.meta)))
             meta["confirmed_by_us"] = dict(
                 ran="tools/seedcheck.py: scratch worktree of /repo HEAD; demo on clean tree; git apply patch; repository suite; demo on patched tree; our check(s) with BPVERIF_REPO=<worktree>",
